@@ -51,8 +51,13 @@ def run_one(pid: str, tier: str, repo_root: Path, replay: str | None = None) -> 
                 "hdc/algo/ops/whit.py became reachable from the package's import graph; "
                 "the rules exclude it on the premise that nothing imports it"
             )
-        if tier == "thorough" and hasattr(mod, "thorough"):
-            mod.thorough(repo, rep)
+        extra_thorough = None
+        if tier == "thorough":
+            from sa import thorough as th
+            extra_thorough = {"selftest": th.run_corpus(pid, repo_root)}
+            if hasattr(mod, "thorough"):
+                extra_thorough.update(mod.thorough(repo, rep) or {})
+            rep.extra_cov = dict(getattr(rep, "extra_cov", None) or {}, thorough=extra_thorough)
     except core.AnalysisError as exc:
         print(f"ANALYSIS-ERROR property={pid} {exc}")
         part = core.CURRENT
@@ -94,6 +99,19 @@ def run_one(pid: str, tier: str, repo_root: Path, replay: str | None = None) -> 
     core.write_evidence(rep, tier, level, wall, viol, known_hit, repo,
                         extra_cov=getattr(rep, "extra_cov", None))
 
+    st_bad = []
+    if tier == "thorough" and extra_thorough is not None:
+        st = extra_thorough["selftest"]
+        print(f"[{pid}] thorough: sensitivity corpus {st['variants']} variants ({st['fire_expected']} must fire, {st['silent_expected']} must stay silent), "
+              f"{len(st['unexpected'])} unexpected")
+        st_bad = st["unexpected"]
+        for u in st_bad:
+            print(f"{u['status']} {u['id']}: " + " / ".join(u["tail"]))
+        for key, val in extra_thorough.items():
+            if key != "selftest" and isinstance(val, dict) and val.get("disagreements"):
+                for dmsg in val["disagreements"]:
+                    print(f"ANALYSIS-ERROR property={pid} cross-check {key}: {dmsg}")
+                st_bad = st_bad + [key]
     n_ok = sum(1 for o in rep.obls if o.ok)
     print(f"[{pid}] tier={tier} obligations={len(rep.obls)} discharged={n_ok} "
           f"violations={len(viol)} known={len(known_hit)} wall={wall:.2f}s")
@@ -117,6 +135,8 @@ def run_one(pid: str, tier: str, repo_root: Path, replay: str | None = None) -> 
             print(f"  {o.where()}: [{o.rule}] {o.role}: {o.detail}\n      stmt: {o.stmt}")
             print(f"VIOLATION property={pid} replay={path}")
         return 1
+    if st_bad:
+        return 2
     return 0
 
 
